@@ -104,6 +104,14 @@ def frame_relations(calcule_base, pts):
     rel['normal'] = bool(abs(v3 @ e1) / scale <= 10 * TOL and abs(v3 @ aux) / scale <= max(10 * TOL, 2e-16 / max(sin, 1e-300)))
     rel['origin'] = bool((np.array(origin) == keep[0]).all())
     rel['intact'] = all(bool((a == b).all()) for a, b in zip(pts, keep))
+    # the three points handed over as ONE (3, 3) array (as ExchangeMap does for small molecules): same frame,
+    # array not modified, and a second call on the same array gives the same frame again
+    arr = np.array(keep, float)
+    (w1, w2, w3), _o = calcule_base(arr)
+    first = np.array([w1, w2, w3]).copy()
+    (x1, x2, x3), _o = calcule_base(arr)
+    rel['intact'] = bool(rel['intact'] and np.array_equal(arr, np.array(keep, float))
+                         and np.array_equal(first, np.array([x1, x2, x3])))
     return rel
 
 
@@ -131,7 +139,7 @@ def _work_rand(args):
             for _ in range(6):
                 sc = 10 ** rng.uniform(-3, 3)
                 p0 = rng.uniform(-1, 1, 3) * sc
-                kind = rng.choice(['generic', 'generic', 'collinear_int', 'collinear_axis', 'middle', 'decimal'])
+                kind = rng.choice(['generic', 'generic', 'collinear_int', 'collinear_axis', 'collinear_tilt', 'middle', 'decimal'])
                 if kind == 'generic':
                     while True:
                         p1 = p0 + rng.normal(size=3) * sc * 0.3
@@ -149,6 +157,15 @@ def _work_rand(args):
                 elif kind == 'collinear_axis':
                     d = np.eye(3)[rng.integers(0, 3)] * rng.choice([-1, 1])
                     p1, p2 = p0 + 0.3 * sc * d, p0 - 0.7 * sc * d
+                elif kind == 'collinear_tilt':
+                    # a line a tiny angle away from a coordinate axis (any axis, any sign): collinear as written
+                    k, j = rng.choice(3, 2, replace=False)
+                    d = np.eye(3)[k] * rng.choice([-1, 1]) + np.eye(3)[j] * rng.choice([-1, 1]) * 10.0 ** (-rng.integers(2, 13))
+                    if rng.random() < 0.5:
+                        d = d + np.eye(3)[3 - k - j] * rng.choice([-1, 1]) * 10.0 ** (-rng.integers(2, 13))
+                    d = d / np.linalg.norm(d)
+                    k1, k2 = rng.choice([-3, -2, -1, 1, 2, 3, 5], 2, replace=False)
+                    p1, p2 = p0 + k1 * d * sc * 0.1, p0 + k2 * d * sc * 0.1
                 elif kind == 'middle':
                     p1, p2 = p0.copy(), p0 + rng.normal(size=3) * sc
                 else:
